@@ -1259,6 +1259,10 @@ impl<A: Flavour> Case<A> {
           _ => return None,
         };
         let reference = (|| -> Option<String> {
+          // (not under the controlled scheduler: the load of the cursor would be an access of the trace)
+          if sched::is_worker() {
+            return None;
+          }
           let al = a.allocated();
           let m = a.memory();
           if off >= al || al > m.len() {
